@@ -229,8 +229,10 @@ plan("C09", "c09.py", "every arrival order of every subset of the messages of on
 
 plan("C01", "c01.py", "small logging programs (lanes/threads, every way of starting, scoping and finishing actions, typed and untyped fields, tracebacks, global fields) -> real FileDestination -> file -> json -> Parser.parse_stream, compared with an independent oracle, on the real code",
      "Proof for the two ends, per call: on the emitting side the level arithmetic the parser relies on (TaskLevel.child / next_sibling, "
-     "Action._nextTaskLevel: the n-th message of an action carries level ++ [n]) and the scoping contracts of C04 (which action is current "
-     "decides whose child a message becomes: run / context() / __enter__ / __exit__ / start_action / startTask / log_message); on the parsing side the contracts of C09's function set (a message "
+     "Action._nextTaskLevel: the n-th message of an action carries level ++ [n]) the scoping contracts of C04 (which action is current "
+     "decides whose child a message becomes: run / context() / __enter__ / __exit__ / start_action / startTask / log_message) and the "
+     "one-start / one-truthful-end contracts of C03 (status failed iff an exception object of any class left the block, with its name and "
+     "reason); on the parsing side the contracts of C09's function set (a message "
      "becomes exactly one node at the position its task_level names, linked into its parent chain, nothing else changes; completion rule; one "
      "task per uuid). The composition -- every program's emitted file parses back to exactly the tree the program executed -- is a whole-program "
      "statement over emission, JSON encoding (orjson) and parsing that no single contract expresses; it is decided by the bounded driver only "
@@ -238,4 +240,4 @@ plan("C01", "c01.py", "small logging programs (lanes/threads, every way of start
      "Trusted: as for C09 and C02; the JSON encoder/decoder (bounded differential in drivers/c10.py). The driver's 'odd' families (logging into a "
      "finished action, reserved field names, a reserved but unused position, schema-violating typed actions) are outside the statement, see "
      "known_findings.json.",
-     side_checks=["parser_check.py"], includes=["C04"])
+     side_checks=["parser_check.py"], includes=["C04", "C03"])
